@@ -164,10 +164,10 @@ theorem getMatch_nil_cmp {chk : Constraint → Bytes → Bool} {pc : Bool} :
         simp only [Bool.and_eq_true, beq_iff_eq] at hs
         right
         match hc : seg.const, h1, hs.1 with
-        | [x], _, hx => simp at hx; simp [hx]
+        | [x], _, hx => simp at hx; simp [hx, cmpOfConst]
       · have h0 : seg.const.length = 0 := by simp at hle; omega
         left
-        simp [List.eq_nil_of_length_eq_zero h0]
+        simp [List.eq_nil_of_length_eq_zero h0, cmpOfConst]
     · simp only [if_true]
       obtain ⟨vs', _, _, _, hrec⟩ := getMatch_param_step h hp
       simp only [List.drop_nil] at hrec
